@@ -244,7 +244,14 @@ TEMPLATES = [
     "tri = n => zero if n <= zero else tri(n - one) + n\ntri(a)",
     "twice = (f, v) => f(f(v))\ntwice(y => twice(z => z + y, one), a)",
     "s + str(one) == str(s) + str(one)",
+    # numerically equal keys spelled with different scales are different keys (run with the real functools caches)
+    "d3 = {2.50: a}\nd3[2.5]",
+    "x = {}\nx[7.0] = a\nx[7] = b\nkeys(x)",
+    "x = {1: a}\nx[1.0] = b\nx[0.5 * 2] = c\n[keys(x), get(x, 1.00, s), get(x, 1, s)]",
+    "x = {1.0: a}\ny = {1: b}\n[keys(x), keys(y), x | map((k, v) => k), 1.0 in x, 1 in x]",
+    "x = {}\nx[14 / 2] = a\nx[7] = b\nx[7.00] = c\ndel x[7]\nkeys(x)",
 ]
+REAL_CACHES_FROM = 44
 if isinstance(hlib.PARAM, dict) and "t" in hlib.PARAM:
     prewarm(TEMPLATES[hlib.PARAM["t"]])
 
@@ -256,6 +263,8 @@ def template(a: int, b: int, c: int, si: int, n: int) -> None:
     """
     hlib.enter(locals())
     text = TEMPLATES[hlib.PARAM["t"]]
+    if hlib.PARAM["t"] >= REAL_CACHES_FROM:
+        hlib.reset_caches()          # real functools caches are in use for these: every path starts with them empty
     hlib.assume(hlib.deep() or n <= 3)
     n = hlib.concrete(n, 0, 5)
     s = ['', 'p', 'zz'][hlib.concrete(si, 0, 2)]
